@@ -288,8 +288,28 @@ def _build(spec):
         kw = dict(zip(("bias_WQ", "bias_WK", "bias_WV", "bias_WC"), spec["flags"]))
     else:
         kw = dict(zip(("bias_WQ", "bias_WK", "bias_WV", "bias_WC"), spec["has_bias"]))
-    return M.MultiHeadedAttention(spec["query_size"], spec["key_size"], spec["value_size"], spec["num_heads"],
-                                  inner, spec["out_size"], spec["d_v"], **kw)
+    if (spec["query_size"] + spec["num_heads"]) % 2 == 0:
+        # the four flags in the documented positional order
+        mod = M.MultiHeadedAttention(spec["query_size"], spec["key_size"], spec["value_size"], spec["num_heads"],
+                                     inner, spec["out_size"], spec["d_v"],
+                                     *[kw[k] for k in ("bias_WQ", "bias_WK", "bias_WV", "bias_WC")])
+    else:
+        mod = M.MultiHeadedAttention(spec["query_size"], spec["key_size"], spec["value_size"], spec["num_heads"],
+                                     inner, spec["out_size"], spec["d_v"], **kw)
+    # the single-head module AS THE CALLER HOLDS IT (not registered a second time): its parameters are set, and the
+    # head-by-head reference is computed, through this handle
+    object.__setattr__(mod, "_vmon_given_inner", inner)
+    return mod
+
+
+def _params_by_caller_handles(mod):
+    """name -> parameter, the wrapped single-head attention's ones reached through the caller's own handle."""
+    params = dict(mod.named_parameters())
+    given = getattr(mod, "_vmon_given_inner", None)
+    if given is not None:
+        for name, prm in given.named_parameters():
+            params["single_head_attention." + name] = prm
+    return params
 
 
 def _travel(mod, case, dt, *ints):
@@ -314,7 +334,7 @@ def _materialise(case):
     ex = case.get("explicit")
     if ex is not None:
         with torch.no_grad():
-            params = dict(mod.named_parameters())
+            params = _params_by_caller_handles(mod)
             for name, val in ex["state"].items():
                 params[name].copy_(torch.tensor(val, dtype=dt).reshape(params[name].shape))
         q = torch.tensor(ex["query"], dtype=dt).reshape(case["query_shape"])
@@ -326,7 +346,7 @@ def _materialise(case):
         return _travel(mod, case, dt, q.numel(), k.numel()), q, k, v, mask, torch.Generator().manual_seed(12345)
     g = torch.Generator().manual_seed(case["seed"])
     with torch.no_grad():
-        for name, prm in sorted(mod.named_parameters()):
+        for name, prm in sorted(_params_by_caller_handles(mod).items()):
             val = torch.randn(prm.shape, generator=g, dtype=torch.float64) * case["p_scale"]
             if name.endswith("bias"):
                 val = torch.where(val < 0, val - 0.5, val + 0.5)  # a requested bias is never ~0
@@ -540,7 +560,8 @@ def execute(case, mon):
                     qh = F.linear(q, *sl(mod.WQ, d_q))
                     kh = F.linear(k, *sl(mod.WK, d_k))
                     vh = F.linear(v, *sl(mod.WV, d_v))
-                    heads.append(_call(mon, mod.single_head_attention, qh, kh, vh, mask, "single_head(reference)"))
+                    sha = getattr(mod, "_vmon_given_inner", None) or mod.single_head_attention
+                    heads.append(_call(mon, sha, qh, kh, vh, mask, "single_head(reference)"))
                 cat = torch.cat(heads, -1)
                 return F.linear(cat, mod.WC.weight, mod.WC.bias)
 
